@@ -19,3 +19,68 @@ package ast_java
 
 //@ func ParseTargetType
 //@ noinline
+
+// ---- C01: what the full pass records for a method declaration
+
+//@ spec MKey(pkg string, clz string, name string, line int) string := pkg + "." + clz + "." + name + ":" + Itoa(line)
+//@ spec FParamList(m Node) Node := Child(Child(m, "formalParameters"), "formalParameterList")
+//@ spec FParam(m Node, j int) Node := ChildN(FParamList(m), "formalParameter", j)
+//@ spec NFParams(m Node) int := FParamList(m) == nil ? 0 : Count(FParamList(m), "formalParameter")
+//@ spec ParamType(p Node) string := GetText(Child(p, "typeType"))
+//@ spec ParamName(p Node) string := GetText(Child(Child(p, "variableDeclaratorId"), "identifier"))
+// ps lists the (type, name) pairs of the first n formal parameters of list l, in order
+//@ spec ParamsAre(ps []core_domain.CodeProperty, l Node, n int) bool := len(ps) == n &&
+//@    (forall j int :: {ps[j]} 0 <= j && j < n ==> ps[j].TypeType == ParamType(ChildN(l, "formalParameter", j)) && ps[j].TypeValue == ParamName(ChildN(l, "formalParameter", j)))
+
+//@ func BuildMethodParameters
+//@ inline
+//@ loop 1 invariant ParamsAre(methodParams, Child(parameters, "formalParameterList"), #i) && localVars != nil
+//@ loop 1 invariant methodMap == old(methodMap) && methodQueue == old(methodQueue) && currentPkg == old(currentPkg) && currentClz == old(currentClz) && currentType == old(currentType)
+
+// the declared method is entered in the method table under package.class.name:line with its name, return type and
+// ordered (type, name) parameter list; the other entries are untouched
+//@ method JavaFullListener.EnterMethodDeclaration
+//@ requires currentType != "CreatorClass"
+//@ modifies creatorMethodMap
+//@ modifies methodMap
+//@ modifies methodQueue
+//@ modifies currentMethod
+//@ modifies localVars
+//@ ensures MKey(currentPkg, currentClz, GetText(Child(ctx, "identifier")), GetLine(GetStart(ctx))) in methodMap
+//@ ensures methodMap[MKey(currentPkg, currentClz, GetText(Child(ctx, "identifier")), GetLine(GetStart(ctx)))].Name == GetText(Child(ctx, "identifier")) &&
+//@    methodMap[MKey(currentPkg, currentClz, GetText(Child(ctx, "identifier")), GetLine(GetStart(ctx)))].ReturnType == GetText(Child(ctx, "typeTypeOrVoid"))
+//@ ensures FParamList(ctx) != nil ==> ParamsAre(methodMap[MKey(currentPkg, currentClz, GetText(Child(ctx, "identifier")), GetLine(GetStart(ctx)))].Parameters, FParamList(ctx), NFParams(ctx))
+//@ ensures FParamList(ctx) == nil ==> len(methodMap[MKey(currentPkg, currentClz, GetText(Child(ctx, "identifier")), GetLine(GetStart(ctx)))].Parameters) == 0
+//@ ensures forall k string :: {k in methodMap} {methodMap[k]} k != MKey(currentPkg, currentClz, GetText(Child(ctx, "identifier")), GetLine(GetStart(ctx))) ==>
+//@    ((k in methodMap) <==> old(k in methodMap)) && methodMap[k] == old(methodMap[k])
+
+// the class declaration names the entry being read, with its kind
+//@ method JavaFullListener.EnterClassDeclaration
+//@ requires (*currentNode).NodeName == ""
+//@ modifies *currentNode
+//@ modifies currentType
+//@ modifies hasEnterClass
+//@ modifies currentClzExtend
+//@ modifies currentClz
+//@ modifies classNodeQueue
+//@ ensures (*currentNode).NodeName == GetText(Child(ctx, "identifier")) && (*currentNode).Type == "Class" && currentClz == GetText(Child(ctx, "identifier"))
+//@ ensures (*currentNode).Package == old((*currentNode).Package) && classNodeQueue == old(classNodeQueue)
+
+//@ method JavaFullListener.EnterPackageDeclaration
+//@ modifies *currentNode
+//@ modifies currentPkg
+//@ ensures (*currentNode).Package == GetText(Child(ctx, "qualifiedName")) && currentPkg == GetText(Child(ctx, "qualifiedName"))
+//@ ensures (*currentNode).NodeName == old((*currentNode).NodeName)
+
+// the end of the body of a top-level class or interface lists its entry exactly once: package, name, kind, source path and
+// the functions of the method table; then a fresh entry is started
+//@ method JavaFullListener.exitBody
+//@ requires (*currentNode).NodeName != "" && currentType != "CreatorClass" && len(classNodeQueue) == 0
+//@ modifies *
+//@ ensures len(classNodes) == old(len(classNodes)) + 1 && Extends(classNodes, old(classNodes), 1)
+//@ ensures classNodes[len(classNodes) - 1].NodeName == old((*currentNode).NodeName) && classNodes[len(classNodes) - 1].Package == old((*currentNode).Package) &&
+//@    classNodes[len(classNodes) - 1].Type == old((*currentNode).Type) && classNodes[len(classNodes) - 1].Extend == old((*currentNode).Extend) &&
+//@    classNodes[len(classNodes) - 1].FilePath == old(fileName) && classNodes[len(classNodes) - 1].Annotations == old((*currentNode).Annotations)
+//@ ensures len(classNodes[len(classNodes) - 1].Functions) == old(len(methodMap))
+//@ ensures forall k string :: {k in old(methodMap)} (k in old(methodMap)) ==> (exists i int :: 0 <= i && i < len(classNodes[len(classNodes) - 1].Functions) && classNodes[len(classNodes) - 1].Functions[i] == old(methodMap[k]))
+//@ ensures currentNode != nil && (*currentNode).NodeName == "" && methodMap != nil && len(methodMap) == 0
